@@ -107,6 +107,36 @@ def c01(tier, seed):
            "cmd": ["drive", "eval", str(seed * 1000 + k), 30000, "{trace}"], "min_tally": [1000, 100, 300, 0]} for k in range(1, 12)] if tier == "thorough" else [])
 
 
+MC_ALG = {"type": "mc", "module": "MC_PolyAlgebra", "constants": {"MaxLen": 9, "MaxNZ": 2}, "workers": 1, "timeout": 3400}
+
+
+def c07(tier, seed):
+    return [dict(MC_ALG), CALIB,
+            {"type": "i2s", "name": "drive integ", "spec": "Trace_Ops", "cmd": ["drive", "integ", "{seed}", q(tier, 400, 6000), "{trace}"],
+             "min_tally": [0, 0, 1000, 0]}]
+
+
+def c08(tier, seed):
+    return [{"type": "s2i", "kind": "poly", "mc": {"module": "MC_PolyAlgebra", "constants": {"MaxLen": 9, "MaxNZ": q(tier, 2, 3)}, "workers": 1, "timeout": 3400}},
+            CALIB,
+            {"type": "i2s", "name": "drive deriv", "spec": "Trace_Ops", "cmd": ["drive", "deriv", "{seed}", q(tier, 400, 6000), "{trace}"],
+             "min_tally": [0, 1000, 0, 0]},
+            {"type": "i2s", "name": "drive pwops (piecewise derivative)", "spec": "Trace_Ops", "cmd": ["drive", "pwops", "{seed}", q(tier, 40, 600), "{trace}"],
+             "min_tally": [0, 0, 0, 500]}]
+
+
+def c14(tier, seed):
+    return [dict(MC_ALG), CALIB,
+            {"type": "i2s", "name": "drive ops", "spec": "Trace_Ops", "cmd": ["drive", "ops", "{seed}", q(tier, 60, 1000), "{trace}"],
+             "min_tally": [3000, 0, 0, 0], "min_nontrivial": 128}]
+
+
+def c15(tier, seed):
+    return [dict(MC_ALG), CALIB,
+            {"type": "i2s", "name": "drive pwops", "spec": "Trace_Ops", "cmd": ["drive", "pwops", "{seed}", q(tier, 60, 1000), "{trace}"],
+             "min_tally": [0, 0, 0, 1000], "min_nontrivial": 28}]
+
+
 ARITH_ASSUME = [
     "libm ln within 1 ulp (glibc claims < 1 ulp)",
     "inputs whose partial terms or powers of x leave [2^-1000, 2^1000] are out of scope and skipped (counted by the tallies)",
@@ -119,6 +149,14 @@ ORDER_ASSUME = [
 ]
 
 PLANS = {
+    "C07": {"claim": "Deriv(Indef c)=c, i*Indef(c)[i+1]=c[i], the knot condition and F(b)-F(a)=exact integral are model-checked over exact rationals for degrees 0..7; real integral()/indefinite() results (of PolyK and of Segment<PolyK>) on random and engineered inputs incl. knot.x = +-0 are judged by TLC over exact rationals: zero constant term, every coefficient the correctly rounded c_i/(i+1), vertical shift only, value at the knot, definite integrals, and derivative-back within one ulp.",
+            "steps": c07, "rule": "one event per (degree, coefficient vector, knot, two evaluation points); all in-scope events count as non-trivial", "assumptions": ARITH_ASSUME},
+    "C08": {"claim": "Linearity of Deriv, Deriv(x^k)=k x^(k-1), lengths and the degree-0 case are model-checked; the integer grid is replayed bit-exactly on derivative() of Poly0..8; random float vectors are judged by TLC (1 ulp, exact for factors 1,2,4,8); Segment/Piecewise derivative keeps count, order and breakpoint bits and differentiates every piece (incl. neighbouring pieces with equal derivatives).",
+            "steps": c08, "rule": "non-trivial = degree >= 2 (derivative events); piecewise events: all", "assumptions": ARITH_ASSUME},
+    "C14": {"claim": "The pointwise meaning of scale/negate/add/subtract/translate is model-checked on the coefficient grid; every operator implementation that exists (128 type/operator instantiations, enforced as a coverage obligation) is run on random and special scalars and each number of each result is judged by TLC as the correctly rounded lane-wise operation; `*=` must equal `*` bit for bit; translate touches the additive constant only (empty PolyN becomes the constant).",
+            "steps": c14, "rule": "distinct_nontrivial = distinct (type, operator) instantiations exercised", "assumptions": ARITH_ASSUME},
+    "C15": {"claim": "Scale, *=, negate, translate and derivative on Segment (by value and through &mut) and Piecewise over polynomial, Log, IntOfLog and IntOfLogPoly4 pieces: TLC checks same count, same breakpoint bits, each piece equal to the operation applied to it alone and judged as in C14, with scalars down to 1e-24.",
+            "steps": c15, "rule": "distinct_nontrivial = distinct (piece type, lifted operator) instantiations exercised", "assumptions": ARITH_ASSUME},
     "C01": {"claim": "Horner = power sum = each Estrin scheme as written in poly.rs is model-checked on a coefficient grid for degrees 0..8; the grid is replayed bit-exactly on Poly0..8, PolyN and Log at v=1 under power-of-two scalings; random, cancelling, single-lane, tiny/huge and exact-regime inputs of all forms are judged by TLC with exact rational arithmetic against the stated bound 4(n+2)2^-53 sum|c_i||x|^i (plus the propagated ulp of ln for Log) and against exactness in the exact regime.",
             "steps": c01, "parallel": 8, "rule": "non-trivial = degree >= 2 with x # 0, or any Log event; tallies in impl_to_spec[].tally = [polynomial events in scope, of which exact regime, log events in scope]",
             "assumptions": ARITH_ASSUME},
